@@ -568,6 +568,34 @@ def fixed_programs():
         out.append(Program([basef, tagf, Func("main", [], VOID, [Echo(SFld("Conf", "v")), Echo(SFld("Conf", "name")), Echo(SFld("KK", "w")), Echo(SFld("KK", "u")),
                                                                  Decl(C("KK"), "k", New("KK")), Echo(Fld(Var("k"), "f")), Echo(Fld(Var("k"), "g"))])],
                            [cls[order[0]], cls[order[1]]]))
+    # (4) objects returned by free functions / methods / static methods and dropped at once, by reassignment, by null, through an
+    #     alias: the destructor chain runs when the last reference goes, before the next statement's output
+    res = Class("Res", "", [Field(INT, "id")], [Method("make", [Param(INT, "k")], C("Res"), [Ret(New("Lease", Var("k")))]),
+                                              Method("smake", [Param(INT, "k")], C("Res"), [Ret(New("Res", Var("k")))], static=True)],
+                [Ctor([Param(INT, "i")], [Expr(FAsg(This(), "id", Var("i")))])], [Echo(Bin("+", S("~Res "), Var("id")))])
+    lease = Class("Lease", "Res", [], [], [Ctor([Param(INT, "i")], [Super(Var("i"))])], [Echo(Bin("+", S("~Lease "), Var("id")))])
+    openf = Func("open", [Param(INT, "k")], C("Res"), [Ret(New("Lease", Var("k")))])
+    open2 = Func("open2", [Param(INT, "k")], C("Res"), [Decl(C("Res"), "r", New("Res", Var("k"))), Ret(Var("r"))])
+    for maker in (lambda k: Call("open", I(k)), lambda k: Call("open2", I(k)), lambda k: MCall(Var("pool"), "make", I(k)), lambda k: SCall("Res", "smake", I(k))):
+        body = [Decl(C("Res"), "pool", New("Res", I(0))),
+                Expr(maker(1)), Echo(S("after 1")),
+                Decl(C("Res"), "a", maker(2)), Expr(Asg("a", Null())), Echo(S("after 2")),
+                Decl(C("Res"), "b", maker(3)), Decl(C("Res"), "c", Var("b")), Expr(Asg("b", Null())), Echo(S("still 3")), Expr(Asg("c", Null())), Echo(S("after 3")),
+                Decl(C("Res"), "d", maker(4)), Expr(Asg("d", maker(5))), Echo(S("after 4")),
+                Echo(Fld(maker(6), "id")), Echo(S("after 6")),
+                Block([Decl(C("Res"), "e", maker(7))]), Echo(S("after 7"))]
+        out.append(Program([openf, open2, Func("main", [], VOID, body)], [res, lease]))
+    # (5) a plain class over two generic levels over a plain base with fields, the derived classes declared first
+    dev = Class("Device", "", [Field(INT, "id"), Field(STR, "label", S("root"))], [Method("rootId", [], INT, [Ret(Fld(This(), "id"))]), Method("kind", [], STR, [Ret(Bin("+", S("kind:"), Var("label")))], virtual=True)],
+                [Ctor([Param(INT, "id0")], [Expr(FAsg(This(), "id", Var("id0")))])], [])
+    sens = Class("Sensor", "Device", [Field(INT, "samples", I(30))], [], [Ctor([Param(INT, "i")], [Super(Var("i"))])], [], tparams=["T"])
+    cal = Class("Calib", "Sensor", [Field(INT, "offset", I(3)), Field(P("T"), "unit")], [], [Ctor([Param(INT, "i"), Param(P("T"), "u")], [Super(Var("i")), Expr(FAsg(This(), "unit", Var("u")))])], [],
+                tparams=["T"], base_targs=[P("T")])
+    leaf = Class("Leaf", "Calib", [Field(INT, "reading", I(21))], [], [Ctor([Param(INT, "i")], [Super(Var("i"), I(55))])], [], base_targs=[INT])
+    for cls in ([leaf, cal, sens, dev], [cal, leaf, dev, sens], [dev, sens, cal, leaf]):
+        out.append(Program([Func("main", [], VOID, [Decl(C("Leaf"), "l", New("Leaf", I(7))), Echo(Fld(Var("l"), "id")), Echo(Fld(Var("l"), "label")), Echo(MCall(Var("l"), "rootId")),
+                                                    Echo(MCall(Var("l"), "kind")), Echo(Fld(Var("l"), "samples")), Echo(Fld(Var("l"), "offset")), Echo(Fld(Var("l"), "unit")),
+                                                    Echo(Fld(Var("l"), "reading")), Decl(C("Device"), "r", New("Device", I(9))), Echo(MCall(Var("r"), "kind"))])], cls))
     for build in (("Shape", "Circle", "Dot"), ("Dot", "Shape", "Circle"), ("Circle", "Dot", "Shape")):
         log = Class("Log", "", [], [Method("seen", [Param(C("Shape"), "s")], INT, [Echo(S("seen(Shape)")), Ret(I(1))], static=True),
                                     Method("seen", [Param(C("Circle"), "c")], INT, [Echo(S("seen(Circle)")), Ret(I(2))], static=True)], [], [], static=True)
